@@ -137,6 +137,19 @@ type Nulls struct {
 	Z  string      `json:"z"`
 }
 
+// NullPtrs: the null.* wrappers behind pointers and as map values (the
+// positions in which their codecs' New is used). Pointees are generated valid
+// (an invalid wrapper behind a non-nil pointer has no faithful encoding).
+type NullPtrs struct {
+	ID int64               `json:"id"`
+	PI *null.Int           `json:"pi"`
+	PS *null.String        `json:"ps"`
+	PF *null.Float         `json:"pf"`
+	PB *null.Bool          `json:"pb"`
+	MI map[string]null.Int `json:"mi" verif:"max1"`
+	Z  int64               `json:"z"`
+}
+
 type Mixed struct {
 	ID int64             `json:"id"`
 	S  string            `json:"s"`
@@ -218,6 +231,7 @@ func init() {
 	addType(desc[PlainOmit]("PlainOmit", false, false))
 	addType(desc[PtrSlices]("PtrSlices", false, false))
 	addType(desc[Nulls]("Nulls", false, false))
+	addType(desc[NullPtrs]("NullPtrs", false, false))
 	addType(desc[Mixed]("Mixed", false, true))
 	addType(desc[Fixed]("Fixed", true, false))
 }
